@@ -69,8 +69,8 @@ impl Prop for C01 {
     }
     fn runs(&self, tier: Tier) -> u64 {
         match tier {
-            Tier::Quick => 360,
-            Tier::Thorough => 6000,
+            Tier::Quick => 1500,
+            Tier::Thorough => 40000,
         }
     }
     fn rule(&self) -> &'static str {
